@@ -6,6 +6,7 @@ import (
 	"fmt"
 	"os"
 	"sort"
+	"strings"
 	"time"
 
 	"verif/explore"
@@ -84,8 +85,19 @@ func (c *Ctx) Expired() bool {
 // finding; otherwise it is a violation.
 func (c *Ctx) Mismatch(findingID, sig, what string, replay map[string]interface{}) {
 	if findingID != "" {
-		if k, ok := c.Known[findingID]; ok && k.Status == "known" && k.Property == c.Property {
-			c.R.Finding(findingID, what)
+		// several ids (comma separated) = the observation is the joint effect of several
+		// listed defects; every one of them must be listed as known
+		ids := strings.Split(findingID, ",")
+		all := true
+		for _, id := range ids {
+			if k, ok := c.Known[id]; !(ok && k.Status == "known" && strings.Contains(","+k.Property+",", ","+c.Property+",")) {
+				all = false
+			}
+		}
+		if all {
+			for _, id := range ids {
+				c.R.Finding(id, what)
+			}
 			return
 		}
 	}
